@@ -49,8 +49,49 @@ fn show_dec(r: Result<h3::qpack::Decoded, DecoderError>) -> String {
     }
 }
 
+fn fnv(h: &mut u64, s: &str) {
+    for b in s.as_bytes() {
+        *h ^= *b as u64;
+        *h = h.wrapping_mul(0x100000001b3);
+    }
+    *h ^= 10;
+    *h = h.wrapping_mul(0x100000001b3);
+}
+
+/// canonical result: the variant of a decompression failure and the running size of a too-long refusal are dropped
+fn canon(r: String) -> String {
+    if r.starts_with("err decomp") {
+        "err decomp".into()
+    } else if r.starts_with("err toolong") {
+        "err toolong".into()
+    } else {
+        r
+    }
+}
+
 fn main() {
     run_lines(|ws| match ws {
+        // all inputs PREFIX ++ suffix, suffix of N octets in lexicographic order: digest of the canonical results
+        ["q.blk", prefix, n] => {
+            let p = unhex(prefix);
+            let n: u32 = n.parse().unwrap();
+            let total: u64 = 1u64 << (8 * n);
+            let (mut h, mut oks) = (0xcbf29ce484222325u64, 0u64);
+            let mut input = p.clone();
+            input.resize(p.len() + n as usize, 0);
+            for k in 0..total {
+                for j in 0..n as usize {
+                    input[p.len() + j] = (k >> (8 * (n as usize - 1 - j))) as u8;
+                }
+                let mut buf = Bytes::from(input.clone());
+                let r = canon(show_dec(decode_stateless(&mut buf, u64::MAX)));
+                if r.starts_with("ok") {
+                    oks += 1;
+                }
+                fnv(&mut h, &r);
+            }
+            format!("n={} ok={} h={:016x}", total, oks, h)
+        }
         ["q.enc", fields] => {
             let fs = parse_fields(fields);
             let mut block = BytesMut::new();
